@@ -1,5 +1,6 @@
 """C28 — hierarchy index equals brute force: staleness marking complete, rewrites use only
 `usable*` accessors, measure writes reach the index."""
+from ..cfg import Body
 from ..report import where
 from ..facts import in_module
 from .. import storemodel as sm
@@ -44,6 +45,46 @@ def run(ctx, F, cg):
             ctx.ok("R28c", "update_measure|stale-fallback", "update_measure writes HierarchyEntry.stale when it cannot apply the update")
         else:
             ctx.violation("R28c", "update_measure|no-stale-fallback", where(um), "update_measure never marks an entry stale: an update it cannot absorb is lost")
+    # ---- R28d: no skip that depends on the written value ----------------------------------------------------------
+    ctx.rule("R28d", "in update_measure, whether a hierarchy is told about the write does not depend on the value written: no branch on data derived from the `value` parameter leads to the next hierarchy (or the return) without passing the index update or the stale marking (a write of a non-number over a number must clear or invalidate the old measure)")
+    if um is not None:
+        b = Body(F.mir(um["path"]), um)
+        ctx.saw_fn(um["path"]); ctx.saw_calls(len(b.calls()))
+        vparams = [i for i in range(1, b.argc + 1) if "property::PropertyValue" in b.local_ty(i)]
+        absorb_calls = [c for c in b.calls() if c.path.rsplit("::", 1)[-1] == "update_measure" and c.path != um["path"]]
+        absorb = {c.bb for c in absorb_calls}
+        for i, j, pl, rv, line, exp in b.stmts():
+            if any(x.endswith("HierarchyEntry.stale") for x in pl[1] if x.startswith("f:")):
+                absorb.add(i)
+        if not vparams or not absorb_calls:
+            ctx.anchor_failure("R28d", "value parameter / inner update_measure call of HierarchyIndexManager::update_measure")
+        else:
+            absorb_dests = {c.dest[0] for c in absorb_calls}
+            tainted = b.forward_taint(set(vparams), through_calls=lambda c, ix: c.dest[0] not in absorb_dests)
+            nexts = {c.bb for c in b.calls() if c.path.rsplit("::", 1)[-1] == "next" and c.expname == "ForLoop"} | set(b.ret_blocks())
+            bad = None
+            nsw = 0
+            for i in sorted(b.live_blocks()):
+                t = b.blocks[i]["t"]
+                if t[0] != "switch" or t[1][0] == "k":
+                    continue
+                l = t[1][1][0]
+                ds = b.defs().get(l, [])
+                srcs = {l}
+                for d in ds:
+                    if d[0] == "stmt" and d[4][0] == "discr":
+                        srcs.add(d[4][1][0])
+                if not (srcs & tainted):
+                    continue
+                nsw += 1
+                for s_ in b.succ(i):
+                    if nexts & b.reachable(s_, avoid=absorb | {i}):
+                        bad = b.blocks[i]["l"]
+            if bad is not None:
+                ctx.violation("R28d", "update_measure|value-dependent-skip", where(um, bad),
+                              "update_measure branches on the written value (line %d) and one side goes on to the next hierarchy without updating the index or marking it stale: overwriting a numeric measure with a string or null leaves the old number in every roll-up, on an index that still counts as usable" % bad)
+            else:
+                ctx.ok("R28d", "update_measure|value-independent", "%d value-dependent branch(es); none skips both the index update and the stale marking" % nsw)
     # ---- R28b ------------------------------------------------------------------------------------------
     users = []
     for p, r in F.fns.items():
